@@ -38,3 +38,62 @@ def verify_contracts(ctx, world, contracts, replayers=None, theory="int"):
             ctx.vc(o.name, fq, to_smt2(o), theory=theory, model_vars=mv, replay=replay,
                    probe=(o.kind == "probe"), kind=o.kind, key=getattr(c, "finding_key", lambda o: None)(o) or o.name)
     ctx.trusted.extend(sorted(world.speclib.used))
+
+
+class Lemma:
+    """A fact about spec functions, proved for all values of its parameters.  `induction` lists the
+    instances of the induction hypothesis (parameter -> expression over the parameters); each is
+    usable only when `measure` strictly decreases and stays >= 0 (guarded induction)."""
+    name = ""
+    function = "spec"
+    params = ()          # ((name, type), ...)
+    requires = ()
+    claim = ""
+    induction = ()
+    measure = None
+
+
+def verify_lemmas(ctx, world, lemmas):
+    import z3
+    from vf.pyvc.interp import Ex, Frame, PathEnd
+    from vf.pyvc.values import VFunc, fresh, reset_names, VBox
+    for lm in lemmas:
+        reset_names()
+        ex = Ex(world, [])
+        fr = Frame(VFunc("user", "lemma:" + lm.name, module=None), None)
+        ex.frames.append(fr)
+        ex.spec_mode += 1
+        try:
+            for nm, ty in lm.params:
+                v = fresh(ty, nm)
+                fr.vars[nm] = v.val if isinstance(v, VBox) else v
+            for r in lm.requires:
+                ex.assume(ex.truth(ex.eval_text(r)))
+            if lm.induction:
+                m0 = ex.eval_text(lm.measure).t
+                base = dict(fr.vars)
+                for inst in lm.induction:
+                    newvals = {k: ex.eval_text(v) for k, v in inst.items()}
+                    fr.vars.update(newvals)
+                    mi = ex.eval_text(lm.measure).t
+                    pre = [ex.truth(ex.eval_text(r)) for r in lm.requires]
+                    cl = ex.truth(ex.eval_text(lm.claim))
+                    fr.vars.clear()
+                    fr.vars.update(base)
+                    ex.assume(z3.Implies(z3.And(mi >= 0, mi < m0, *pre), cl))
+            ex.oblige("lemma %s: %s" % (lm.name, lm.claim), ex.truth(ex.eval_text(lm.claim)), kind="lemma")
+        except Unsupported as e:
+            ctx.mark_unproved("lemma:" + lm.name, "unsupported: %s" % e)
+            continue
+        finally:
+            ex.spec_mode -= 1
+        if ex.forks:
+            ctx.mark_unproved("lemma:" + lm.name, "lemma text forks the path")
+            continue
+        fq = lm.function
+        ctx.functions.setdefault(fq, {"sha256_16": "-", "obligations": 0})
+        for o in ex.obls:
+            if o.info.get("trivial"):
+                ctx.direct(o.name, fq, True, "simplifier", kind=o.kind)
+            else:
+                ctx.vc(o.name, fq, to_smt2(o), theory="int", kind=o.kind)
